@@ -245,7 +245,6 @@ def pdApplyAsFound (rf : PdFilter) (data : List Cell) : Except Err (List Cell) :
   match rf with
   | .none => .ok data
   | .invalid => .error (.oob "only integers, slices, ... are valid indices")
-  | .field _ [] => .ok []                                -- numpy makes an empty index array of an empty Field
   | .field _ _ => .error (.oob "only integers, slices, ... are valid indices")
   | .list [] | .array [] => .ok []                       -- an empty index selects nothing, whatever the length
   | .list xs | .array xs =>
